@@ -254,6 +254,79 @@ def signal_handler_table():
     return rows
 
 
+def response_broadcasts():
+    """dispatcher.rs `DispatcherContext::run`: for each `HandleEventResponse` (and, under Cancel, each `CancelEvent`), the requests
+    the arm broadcasts to the running units, each with whether the call is unconditional (directly in the arm's block, not nested
+    in an `if` / `match` / loop)."""
+    src = strip_comments(read("nextest-runner/src/runner/dispatcher.rs"))
+    m = re.search(r"match self\.handle_event\(internal_event\) \{", src)
+    if not m: raise RuntimeError("dispatcher.rs: `match self.handle_event(internal_event)` not found")
+    def block(text, i):
+        depth = 1; j = i
+        while depth and j < len(text):
+            depth += {"{": 1, "}": -1}.get(text[j], 0); j += 1
+        if depth: raise RuntimeError("dispatcher.rs: unbalanced block")
+        return text[i:j - 1]
+    def arms(text, prefix):
+        # arms `prefix::Name(..)? => {` at nesting depth 0 of `text`
+        out = []; depth = 0; k = 0
+        while k < len(text):
+            ch = text[k]
+            if depth == 0:
+                r = re.match(r"((?:#\[cfg\([^\]]*\)\]\s*)?)" + prefix + r"::(\w+)(\((?:[^()]|\([^()]*\))*\))? => \{", text[k:])
+                if r:
+                    body = block(text, k + r.end())
+                    out.append((r.group(1).strip(), r.group(2), (r.group(3) or "").strip("()"), body))
+                    k += r.end() + len(body) + 1; continue
+            if ch == "{": depth += 1
+            elif ch == "}": depth -= 1
+            k += 1
+        return out
+    reqs = [(r"RunUnitRequest::OtherCancel", "otherCancel"), (r"RunUnitRequest::Signal\(\s*SignalRequest::Stop\(\s*\w+,?\s*\)\s*,?\s*\)", "stop"),
+            (r"RunUnitRequest::Signal\(\s*SignalRequest::Continue\s*,?\s*\)", "continue"),
+            (r"RunUnitRequest::Signal\(\s*SignalRequest::Shutdown\(\s*req\s*\)\s*,?\s*\)", "shutdown"),
+            (r"RunUnitRequest::Query\(\s*RunUnitQuery::GetInfo\(\s*\w+\s*\)\s*,?\s*\)", "getInfo")]
+    def calls(body):
+        out = []; depth = 0; k = 0
+        while k < len(body):
+            if body.startswith("broadcast_request(", k):
+                arg = body[k + len("broadcast_request("):]
+                name = None
+                for rx, n in reqs:
+                    r = re.match(r"\s*" + rx + r"\s*\)", arg)
+                    if r: name = n
+                if name is None: raise RuntimeError(f"dispatcher.rs: unrecognised broadcast `{re.sub(chr(92) + 's+', ' ', arg[:70])}`")
+                out.append((name, depth == 0))
+            if body[k] == "{": depth += 1
+            elif body[k] == "}": depth -= 1
+            k += 1
+        return out
+    top = arms(block(src, m.end()), "HandleEventResponse")
+    rows = []
+    for cfg, name, arg, body in top:
+        if "not(unix)" in cfg: continue
+        if name == "Cancel":
+            mm = re.search(r"match cancel \{", body)
+            if not mm: raise RuntimeError("dispatcher.rs: `match cancel` not found in the Cancel arm")
+            inner = block(body, mm.end())
+            outside = body[:mm.start()] + body[mm.end() + len(inner):]
+            if "broadcast_request" in outside: raise RuntimeError("dispatcher.rs: a broadcast in the Cancel arm outside `match cancel`")
+            for _, n2, a2, b2 in arms(inner, "CancelEvent"):
+                rows.append(("Cancel/" + n2, calls(b2)))
+        elif name == "JobControl":
+            r = re.fullmatch(r"JobControlEvent::(\w+)", arg)
+            if not r: raise RuntimeError(f"dispatcher.rs: unrecognised JobControl pattern `{arg}`")
+            rows.append(("JobControl/" + r.group(1), calls(body)))
+        else:
+            rows.append((name, calls(body)))
+    want = {"JobControl/Stop", "JobControl/Continue", "Info", "Cancel/Report", "Cancel/TestFailure", "Cancel/Signal", "None"}
+    got = [k for k, _ in rows]
+    if set(got) != want or len(got) != len(want): raise RuntimeError(f"dispatcher.rs: response arms {got}, expected {sorted(want)}")
+    n_all = len(re.findall(r"broadcast_request\(", block(src, m.end())))
+    if n_all != sum(len(c) for _, c in rows): raise RuntimeError("dispatcher.rs: a broadcast_request call outside the recognised arms")
+    return rows
+
+
 def request_arms(src, fn_name, keys):
     """The arms of the `match req` inside `fn_name`'s request loop, each as a list of (guard, [actions]): a statement is
     `X.pause()` / `X.resume()` (→ `X.pause` / `X.resume`), the acknowledgement of a Stop (→ `ack`), `job_control_child(…, E)`
@@ -494,7 +567,7 @@ def spawn_setup():
     return rows
 
 
-GROUPS = ["cancel", "mismatch", "exit", "setdef", "escape", "signals", "sighandler", "termchild", "termexit", "delayloop", "drainloop", "drainexit", "drainalways", "verdict", "weights", "retries", "scripts", "spawn", "mainloop", "interval", "placeholders", "xml"]
+GROUPS = ["cancel", "mismatch", "exit", "setdef", "escape", "signals", "sighandler", "termchild", "termexit", "delayloop", "drainloop", "drainexit", "drainalways", "verdict", "weights", "retries", "scripts", "spawn", "mainloop", "interval", "placeholders", "xml", "respond"]
 
 
 def group_lines(g):
@@ -542,6 +615,11 @@ def group_lines(g):
         sigh = signal_handler_table()
         return ["/-- signal.rs (unix): every registered signal and the event `recv` turns it into (the debug-only SIGQUIT-as-info switch off) -/",
                 "def signalHandlerTable : List (String × String) := [" + ", ".join(f'("{a}", "{b}")' for a, b in sigh) + "]"]
+    if g == "respond":
+        rows = response_broadcasts()
+        return ["/-- dispatcher.rs `run`: what each response of `handle_event` makes the run loop broadcast to the running units: (request, the call is unconditional) -/",
+                "def responseBroadcasts : List (String × List (String × Bool)) := [" + ", ".join(
+                    f'("{k}", [' + ", ".join(f'("{a}", {"true" if b else "false"})' for a, b in c) + "])" for k, c in rows) + "]"]
     if g == "termchild":
         arms = request_arms(strip_comments(read("nextest-runner/src/runner/unix.rs")), "terminate_child", {k: ARM_KEYS[k] for k in ("Stop", "Continue", "Shutdown")})
         return ["/-- unix.rs `terminate_child`, arms of its request loop: (guard, actions) in order, guard \"\" = unconditional -/",
